@@ -279,6 +279,7 @@ func encCounterPack1(r *vlib.Rand) *W {
 	// per caller project/oid meter: only the absent form is self-consistent between the
 	// decoder (which expects a short array per entry) and any writer; both are generated
 	if r.Chance(1, 4) {
+		altForm = true
 		n := r.Range(1, 3)
 		o.Mark(1, kVer, "counter-txcaller-poid-form")
 		o.U8(9)
@@ -553,6 +554,11 @@ func encHitMapPack(r *vlib.Rand) *W {
 	w := refcodec.NewW()
 	packType(w, 0x1501)
 	packHeader(w, r)
+	if r.Chance(1, 6) {
+		// any other version byte: the message ends after it
+		version(w, []byte{0, 2}[r.Intn(2)], "hitmap-version")
+		return w
+	}
 	version(w, 1, "hitmap-version")
 	for i := 0; i < 240; i++ {
 		w.I16(r.I16())
@@ -595,6 +601,7 @@ func encTagLogPack(r *vlib.Rand) *W {
 	packHeader(w, r)
 	version(w, 0, "taglog-version")
 	w.Text(shortStr(r))
+	altForm = true
 	if r.Bool() {
 		w.Decimal(r.I64())
 	}
@@ -726,6 +733,7 @@ func encServerInfoPack(r *vlib.Rand) *W {
 	if r.Chance(3, 4) {
 		w.Value(m)
 	} else {
+		altForm = true
 		w.ValueBody(m)
 	}
 	return w
